@@ -406,6 +406,10 @@ def dep_histories():
                 [('vab', 'b1', [add_b1]), ('va', 'a1', [add_a1]),
                  ('vab', 'b2', [add_b2])],
                 {('va', 'a1'): {'AFTER_EVOLUTIONS': [('vab', 'b1')]}}))
+    # no dependency at all, but both apps call their evolution the same
+    out.append(('dep-none-shared-label', v0,
+                [('vab', 'e1', [add_b1]), ('va', 'e1', [add_a1]),
+                 ('vab', 'e2', [add_b2])], {}))
     out.append(('dep-app-level', v0,
                 [('vab', 'b1', [add_b1]), ('va', 'a1', [add_a1]),
                  ('va', 'a2', [add_a2])],
@@ -443,7 +447,7 @@ def tasks_for(tier):
     for name, v0d, stepsd, depsd in dep_histories():
         if only and only not in name:
             continue
-        dj = EB.History(v0d, stepsd, depsd).describe()['deps']
+        dj = EB.History(v0d, stepsd, depsd).describe().get('deps', [])
         for d in ('D2', 'D3', 'D4'):
             tasks.append((name, v0d, stepsd, d, dj))
     # an app whose label differs from its package name
